@@ -518,6 +518,9 @@ def ineq_dqm_case(ctx, r, lines, checks):
     if method == 'log10' and r.random() < .5:   # wide ranges so that several digits appear
         terms = [(i, c, a * r.choice([1, 3, 7])) for i, c, a in terms]
     cst = r.randint(-3, 3)
+    force_cross = method != 'log10' and r.random() < .08     # round 7: cross_zero with non-negative biases (judged against the documented domain)
+    if force_cross:
+        terms = [(i, c, abs(a)) for i, c, a in terms]
     tu = sum(a for _, _, a in terms if a > 0); tl = sum(a for _, _, a in terms if a < 0)
     mode = r.random()
     if mode < .15:
@@ -526,7 +529,7 @@ def ineq_dqm_case(ctx, r, lines, checks):
         lb, ub = r.randint(tl - 2, tu + 2) + cst, 2 ** 63 - 1
     else:
         lb = r.randint(tl - 3, tu + 2) + cst; ub = lb + r.choice([0, 1, 2, 3, 5, 7, 9, 10, 12, 15, 21, -1])
-    cross = r.random() < .1
+    cross = r.random() < .1 or force_cross
     lam = r.choice([F(1), F(2), F(1, 2)])
     label = r.choice(['c', 'k0'])
     ineq_dqm_eval(ctx, r, lines, checks, method, ncases, names, d, build, terms, cst, lb, ub, cross, lam, label)
@@ -624,6 +627,20 @@ def ineq_dqm_eval(ctx, r, lines, checks, method, ncases, names, d, build, terms,
                     s_ = dict(zip(names, t))
                     ctx.fail('property', site, cls, f'DQM adjacency before {st0[4]}, terms {call!r} c={cst} lb={lb} ub={ub} lam={lam}: at {s_!r} (sum+c={val(t)}, feasible={f}) the penalty minimised over slack is {m}',
                              repro=src, detail=dict(slack=repr(sl)))
+                    break
+        if cross and sl and method in ('log2', 'linear') and all(a >= 0 for _, _, a in terms) and len(full) <= 60000:
+            # (the equality short-cut, taken when the tightened range is 0, ignores cross_zero in both methods: see D66g; judged only when slack terms were returned)
+            # documented: cross_zero "adds zero to the domain of constraint"; with non-negative biases the DQM construction (extra value ub_c) does exactly that
+            en = dict(zip(full, dqm_energies(d, full)))
+            for t in allc:
+                m = min(en[t + u] for u in itertools.product(*[range(k) for k in sizes])) - e0[t]
+                tot = val(t) - cst
+                f = lb <= val(t) <= ub or tot == 0
+                ctx.tick('ineqdqm:cross:documented-domain (non-negative biases)')
+                if (m != 0) if f else (m < lam):
+                    bad = True
+                    ctx.fail('property', site, cls + ', non-negative biases', f'terms {call!r} c={cst} lb={lb} ub={ub} lam={lam} cross_zero=True: at {dict(zip(names, t))!r} (sum={tot}; in [lb, ub] or 0: {f}) the penalty minimised over slack is {m}',
+                             repro=src.replace('if lb <= val(s) <= ub else', 'if (lb <= val(s) <= ub or val(s) == c) else'), detail=dict(slack=repr(sl)))
                     break
         if not sl and not svars and dqm_state(d) == st0:
             out = 'skip'
